@@ -539,9 +539,40 @@ def raw_facts(node, fn, forms):
                 elif isinstance(s, ast.Assert):
                     out.tag = "pred-raise"
                     out.append((forms.mk(s.test), s.test))
+                elif isinstance(s, ast.For) and isinstance(s.target, ast.Name) and not s.orelse and \
+                        isinstance(s.iter, (ast.Tuple, ast.List)) and \
+                        all(isinstance(e, ast.Constant) for e in s.iter.elts):
+                    # a checking loop over literal constants: unroll `if c(v): raise` for every v
+                    for b in s.body:
+                        if not (isinstance(b, ast.If) and not b.orelse and
+                                _always(b.body, fn, _noret(fn.mod), raise_only=True)):
+                            break
+                        out.tag = "pred-raise"
+                        for e in s.iter.elts:
+                            out.append((_subst(neg(forms.mk(b.test)), s.target.id, repr(e.value), forms), b.test))
             out.tag = "enclosing"
         child, p = p, p._parent
     return out
+
+
+def _subst(f, name, repl, forms):
+    """Formula with every free occurrence of variable `name` in operand texts replaced by `repl`."""
+    pat = re.compile(r"(?<![\w.'\"])" + re.escape(name) + r"(?![\w'\"])")
+
+    def tx(t):
+        if not isinstance(t, str):
+            return t
+        n = pat.sub(repl, t)
+        if n != t and n not in forms.nodes:
+            try:
+                forms.nodes[n] = ast.parse(n, mode="eval").body
+            except SyntaxError:
+                pass
+        return n
+
+    if f[0] == "lit":
+        return ("lit", tuple(tx(x) if i else x for i, x in enumerate(f[1])), f[2])
+    return (f[0], [_subst(x, name, repl, forms) for x in f[1]])
 
 
 def stores_of(fn):
@@ -974,6 +1005,21 @@ def classes_of(expr, fn, at=None, depth=0):
     if isinstance(expr, ast.Call) and isinstance(expr.func, ast.Attribute):
         if expr.func.attr == "get" and table_of(expr.func.value):
             return {sm.tables[table_of(expr.func.value)]}
+    if isinstance(expr, ast.Call):
+        kind, p = resolve(expr, fn, (sm.mod,))
+        if kind == "class" and p in sm.mod.classes:
+            return {p}
+        if kind == "func" and p:
+            out = set()
+            for g in p:
+                if g.node.name == "__init__" and g.cls in sm.mod.classes:
+                    out.add(g.cls)
+                    continue
+                names = _ann_names(g.node.returns)
+                if None in names or not names or not names <= set(sm.mod.classes):
+                    return set()
+                out |= names
+            return out
     if isinstance(expr, ast.Attribute):
         base = classes_of(expr.value, fn, at, depth + 1)
         out = set()
@@ -1568,3 +1614,42 @@ def validate_postdominates():
             ok, msg = False, "parse_file returns something other than parse_string(...)"
     res.append(("parse_file:returns-parse_string", ok, line, "" if ok else msg))
     return res
+
+
+# ----------------------------------------------------------------------------- reaching stores
+def reaching(name, use, fn):
+    """Stores to local `name` that may reach `use` (structured approximation: the latest store that dominates the
+    use kills earlier ones; later stores reach only around a loop that does not contain the dominating store)."""
+    stores = [s for s in stores_of(fn).get(name, []) if not any(isinstance(a, ast.comprehension) for a in ancestors(s))]
+    anc = {id(a) for a in ancestors(use)}
+    dom = None
+    for s in stores:
+        st = stmt_of(s)
+        if isinstance(st, (ast.For, ast.While, ast.If, ast.With, ast.Try)) and not (isinstance(st, ast.For) and inside(s, st.target)):
+            continue
+        if isinstance(st, ast.For):
+            # loop variable: dominates uses inside the loop body
+            if id(st) in anc and not inside(use, st.iter) and (dom is None or pos(s) > pos(dom)):
+                dom = s
+            continue
+        if id(st._parent) in anc and pos(st) < pos(use) and not inside(use, st):
+            # a direct statement of a block enclosing the use, before it
+            blk_owner = st._parent
+            # the use must be in the same field list (body vs orelse) or deeper in a later sibling
+            sib = use
+            while sib._parent is not blk_owner:
+                sib = sib._parent
+            if sib._field == st._field and (dom is None or pos(s) > pos(dom)):
+                dom = s
+    out = []
+    lu = loops_of(use)
+    for s in stores:
+        if s is dom:
+            out.append(s)
+        elif dom is None:
+            out.append(s)
+        elif pos(dom) < pos(s) < pos(use):
+            out.append(s)
+        elif pos(s) > pos(use) and any(L in lu and not inside(dom, L) for L in loops_of(s)):
+            out.append(s)
+    return out
